@@ -1,6 +1,6 @@
 (* C07: what today's code (the `_current` parameters of the model) violates. Witnesses closed by vm_compute. *)
 From Coq Require Import ZArith List Bool.
-From OG Require Import C07.Model C07.ModelRows C07.ModelPreAgg.
+From OG Require Import C07.Model C07.ModelRows C07.ModelPreAgg C07.ModelStats.
 Import ListNotations.
 Open Scope Z_scope.
 
@@ -60,3 +60,18 @@ Proof.
   exists (mkStat nz nz 1000 2000 0 2). vm_compute. repeat split; try congruence.
 Qed.
 Print Assumptions C07_preagg_vlc_zero_flag_refuted.
+
+(* C07-preagg-sentinel-init: today's builders start from MaxInt64 / MinInt64 (+-MaxFloat64) with strict comparisons only:
+   a column whose minimum IS MaxInt64 never records the time of that minimum; an all-+Inf float column keeps MaxFloat64
+   as its minimum *)
+Theorem C07_stats_sentinel_current_refuted :
+  (exists segs, int_build false segs <> int_ref_stat (int_reference segs) /\
+                s_minT (int_build false segs) = 0 /\ s_minT (int_ref_stat (int_reference segs)) = 10) /\
+  (exists segs, let add := fun _ _ : Z => 0 in
+                s_min (fl_build add false segs) = max_f64 /\ s_min (fl_ref_stat (fl_reference add segs)) = 9218868437227405312).
+Proof.
+  split.
+  - exists [[(Some max_i64, 10); (Some max_i64, 20)]]. vm_compute. repeat split; congruence.
+  - exists [[(Some 9218868437227405312, 10); (Some 9218868437227405312, 20)]]. vm_compute. split; reflexivity.
+Qed.
+Print Assumptions C07_stats_sentinel_current_refuted.
